@@ -6,6 +6,7 @@ the total. What is proved: the relation the code does maintain (`AsCoded`), the 
 custody clause, no-overdraw, and the witness of the defect. Property theorems only.
 -/
 import ElysModel.Lemmas.Commit
+import ElysModel.Ledger.Lockups
 namespace Elys.Commit.C12
 
 /-- the relation the code maintains: total = Σ_a committed + 2·(uncommitted so far) + (burnt so far). -/
@@ -175,3 +176,54 @@ example : AsCoded ({} : St) ∧ GhostsNonneg ({} : St) := by
   constructor <;> intro d <;> simp [view, sumCommitted, sumClaimed, FMap.sumIf, FMap.get]
 
 end Elys.Commit.C12
+
+namespace Elys.Lockups.C12
+
+theorem lockedAt_filter (locks : List Lock) (now : Int) : lockedAt (locks.filter (fun l => l.unlock > now)) now = lockedAt locks now := by
+  induction locks with
+  | nil => rfl
+  | cons l ls ih =>
+    by_cases h : l.unlock > now
+    · simp [List.filter_cons, h, lockedAt, ih]
+    · simp [List.filter_cons, h, lockedAt, ih]
+
+/-- committed tokens under a time lock cannot be withdrawn by their owner before the lock expires: a successful
+non-liquidation deduction leaves at least the sum of the unexpired lock-ups committed -/
+theorem lock {s s' : St} {amount now : Int} (h : deduct s amount now false = .ok s') :
+    lockedAt s.locks now ≤ s'.committed ∧ s'.committed = s.committed - amount := by
+  unfold deduct at h
+  simp only [Bool.false_eq_true, if_false] at h
+  split at h; · simp at h
+  split at h; · simp at h
+  rename_i hc hl
+  simp only [Except.ok.injEq] at h; subst h
+  rw [lockedAt_filter] at hl
+  exact ⟨by simp only; omega, rfl⟩
+
+/-- … and an account can never deduct more than it has, liquidation or not -/
+theorem no_overdraw {s s' : St} {amount now : Int} {liq : Bool} (h : deduct s amount now liq = .ok s') :
+    amount ≤ s.committed ∧ 0 ≤ s'.committed := by
+  unfold deduct at h
+  simp only at h
+  by_cases hc : s.committed - amount < 0
+  · simp [hc] at h
+  · simp only [hc, if_false] at h
+    by_cases hl : lockedAt (if liq = true then [] else List.filter (fun l => decide (l.unlock > now)) s.locks) now > s.committed - amount
+    · simp [hl] at h
+    · simp only [hl, if_false, Except.ok.injEq] at h; subst h
+      exact ⟨by omega, by simp only; omega⟩
+
+/-- every locked commit is recorded: the locked amount grows by exactly the committed amount while the lock is in force -/
+theorem add_records_lock (s : St) (amount unlock now : Int) (hu : unlock ≠ 0) (hn : unlock > now) :
+    lockedAt (add s amount unlock).locks now = lockedAt s.locks now + amount := by
+  have happ : ∀ (a b : List Lock), lockedAt (a ++ b) now = lockedAt a now + lockedAt b now := by
+    intro a b; induction a with
+    | nil => simp [lockedAt]
+    | cons x xs ih => simp [lockedAt, ih]; omega
+  simp [add, hu, happ, lockedAt, hn]
+
+/-- non-vacuity: two commits locked until the same time, then an early withdrawal attempt of the second -/
+example : (deduct (add (add {} 100 3600) 100 3600) 100 1800 false).toOption = none ∧
+          (deduct (add (add {} 100 3600) 100 3600) 100 3601 false).toOption.map (·.committed) = some 100 := by decide
+
+end Elys.Lockups.C12
